@@ -283,6 +283,24 @@ CHECKS["C14"] = dict(
     technique="Lean 4 theorems about result checkers (length, numeral value, needle count + certified grammar reachability) + certification of every result of the real helpers",
 )
 
+CHECKS["C06"] = dict(
+    category="proof",
+    text="A conservative three-valued evaluator for OPEN derivation trees (evalOpen: SMT atoms only on closed subtrees, the path-only structural "
+    "predicates, tree quantifiers over the existing nodes guarded by certified grammar reachability from the open leaves of the in-tree, "
+    "everything else only on closed trees) is proved STABLE for every grammar, partial tree, completion, environment and formula: a definite "
+    "answer is the answer of the reference evaluator - hence the truth value of the specification Sat - on EVERY closed completion with the same "
+    "node identities (evalOpen_stable, evalOpen_sat, completions_agree; 565 lines of proof: prefix facts, validity => reachability of every node "
+    "below an open leaf, domain monotonicity / exactness). Tie: the real evaluate() is run on open prefixes of random derivations; every "
+    "definite verdict is compared with the verified reference verdict on the original derivation and 3 random completions (a contradiction is a "
+    "failing input of the property); evalOpen runs alongside as a cross-check of the oracle.",
+    design_ref="DESIGN.md section 7 C06",
+    note="PARTIAL: the real evaluator's own three-valued logic on open trees (has_potential_matches, quantified_formula_might_match, "
+    "can_extend_leaf_to_make_quantifier_match_parent) is NOT modelled - the theorem is about the conservative reference; the real verdicts are "
+    "judged per explored (open tree, completion) pair. Completions are sampled. Known findings: the numeric-quantifier strategy and count() "
+    "answer FALSE on open trees.",
+    technique="Lean 4 theorem (stability of a conservative open-tree evaluator under all completions) + per-pair differential validation of evaluate() on open trees against the verified reference",
+)
+
 NOT_APPLICABLE = {
     "C22": "reproducibility across fresh processes depends on hash randomisation, Z3 seeds/timeouts and wall-clock time; a functional Lean model would prove determinism vacuously and no executable model can exhibit the failure (DESIGN.md section 8)",
 }
